@@ -70,6 +70,8 @@ def gen_dcase(rng):
             decls.append({'name': nm, 'kind': 'typed', 'path': loc_to_path(rng.choice(containers)), 'conv': 'id'})
         else:
             p = loc_to_path(rng.choice(nodes)[0]) + [rng.choice([('wc', False), ('lwc', False), ('gwc', True, False)])]
+            if rng.random() < 0.3:
+                p = None        # declared without a path: the attribute's own name as key (defect D4 was found here)
             decls.append({'name': nm, 'kind': 'iter', 'path': p, 'conv': rng.choice(['id', 'tag'])})
     typed_prefixes = [d['path'] for d in decls if d['kind'] == 'typed']
 
